@@ -37,6 +37,7 @@ DECIDED = [
     "C15.6 flag_intersection maps by set-invariant name, rejects non-unique matches before flagging, honours the skip switches",
     "C15.7 flag_children: selection of exactly one root (else AssertionError), walk over cleanup edges, skip_parents/skip_children semantics",
     "C15.5v from_state / to_state / remove_set come from the vm's own suffix-resolved parameters",
+    "C15.9 the per-worker copies of the update graph are bridged all-pairs (runs and removals of one worker are seen by the others); C15.10 removal requests use the worker's own session",
     "C15.8 the removal itself: sync_states decision table (what is unset for which object, permanent vms only protected at install)",
 ]
 NOT_DECIDED = ["the executed and removed sets for all (from_state, to_state) pairs, vm selections and worker counts"]
@@ -399,6 +400,16 @@ def run(ctx: Ctx) -> None:
         "cartgraph/graph.py:TestGraph.get_nodes": {"param_key": "'name'", "param_val": "''", "subset": "None", "unique": "False"},
     }, "flagging defaults: from the shared root over everything, nothing skipped")
     ctx.call(GR.name_forms, "6n")
+    # each worker's copy of the update graph sees what the other workers already ran / removed: all pairs bridged (the shared views read
+    # direct bridges only), the bridging itself sound; and the removal requests travel over the removing worker's own session
+    ctx.call(GR.bridging_sites, "9")
+    ctx.call(GR.bridge_table, "9b")
+    from . import atoms as A
+
+    ctx.call(A.definitions, "9v", only=("shared_started_workers", "shared_finished_workers", "shared_results"))
+    from .c08 import session_identity
+
+    ctx.call(session_identity, "10")
 
 
 MUTANTS = [
